@@ -623,8 +623,8 @@ The certificate of session 3 is no longer needed for conversions: the robin-hood
 tombstone whatever its comparisons decide, provided the inserted key is not yet stored and `janet_compare` separates
 distinct keys (`RankInj`; then the `status == 0` branch cannot fire).  `table/to-struct`, `struct/with-proto`, every
 level of `freeze`, `thaw` and the round trips are finite-map identities for every table / struct satisfying its
-invariant.  (Struct literals with a repeated key — the `status == 0` replace path — remain under the per-struct
-certificate.) -/
+invariant.  (Struct literals with a repeated key — the `status == 0` replace path — are covered by the ordering
+invariant of session 4d below: `struct_last_value_wins`.) -/
 
 /-- `janet_compare` separates distinct keys (C03's subject; the harness supplies the real ranks) -/
 def RankInj (rank : Nat → Nat) : Prop := ∀ a b, rank a = rank b → a = b
